@@ -183,7 +183,9 @@ def check(ctx):
              "module m; reg step; initial #1 step = 1; endmodule\n", "module m; wire e1, x; assign x = 2.5 + e1; endmodule\n",
              "module m; wire b0, h1; assign b0 = 4 'b0 + h1; endmodule\n", "module m; int std, randomize, sample; initial std = randomize + sample; endmodule\n",
              "module m; reg x1, z0; initial x1 = 1'b x | z0; endmodule\n", "module m; wire ns; assign #1.0ns ns = 0; endmodule\n"]
-    xc = [Case("x%d" % i).add("want", "tree").add("run", "parse_sv_str", hx(t), hx("t.sv")) for i, t in enumerate(extra)]
+    extra += ["module m; initial begin x = a.b().c().d(); y = q.f(1).g(2).h(3).k; z = this.q.a().b().c().d().e(); end endmodule\n",
+              "module m; initial r = obj.m1().m2(p.q().r()).m3; endmodule\n"]
+    xc = [Case("x%d" % i).add("want", "tree", "text").add("run", "parse_sv_str", hx(t), hx("t.sv")) for i, t in enumerate(extra)]
     ximpl = run_harness("api", xc, "c02x", timeout=600)
     badx = None
     for c, t in zip(xc, extra):
@@ -191,6 +193,12 @@ def check(ctx):
         ctx.corr_cases += 1
         if crashed(lines) or not any(l.startswith("tree ") for l in lines):
             badx = badx or (t, "a sentence whose identifiers are spelled like units / scale characters / method names was rejected: %s" % [l for l in lines if l.startswith("err")][:1])
+            continue
+        # every word of the sentence is in the tree: the leaves spell the text
+        tl = [l for l in lines if l.startswith("tree ")][0]
+        why = svtree.tiling_fault(svtree.parse_tree_line(tl), t.encode(), whole=True)
+        if why:
+            badx = badx or (t, "the tree of an accepted sentence does not spell the sentence: " + why)
     ctx.obl("search-oracle:identifiers spelled like time units, scale characters or method names are identifiers", "oracle", badx is None, badx[1] if badx else "")
     if badx:
         rp = write_replay(ctx, "src-" + sha(badx[0])[:8], {"property": "C02", "source": badx[0], "why": badx[1]})
